@@ -20,6 +20,12 @@ Theorem C16_roundtrip_partial : forall n v j d,
   parse_line (render n v j d) = Attr n v j d.
 Proof. exact roundtrip_stmt. Qed.
 
+(* the side condition is exact: with a JSON5 part the round trip holds iff there is no false close *)
+Theorem C16_roundtrip_exact : forall n v jt d,
+  wf_name n = true -> wf_value v = true -> v <> [] -> wf_json jt = true -> wf_descr d = true ->
+  (parse_line (render n v (Some jt) d) = Attr n v (Some jt) d <-> no_false_close d = true).
+Proof. exact roundtrip_iff. Qed.
+
 (* the same for every spelling: any \s runs around the comma and before the description *)
 Theorem C16_roundtrip_spellings_partial : forall tr,
   wf_tree tr -> wf_end tr -> parse_line (flatten tr) = Some (pattr_of tr).
@@ -39,6 +45,11 @@ Proof. exact roundtrip_refuted. Qed.
 (* whatever the matcher accepts is of the form  // @Name(value, {json5}) description ... *)
 Theorem C16_match_sound : forall t tr, match_text t = Some tr -> t = flatten tr /\ shape_tree tr.
 Proof. exact match_sound. Qed.
+
+(* ... and it accepts every text of that form (with the groups leftmost-first picks): the
+   deterministic scanner decides exactly the language of the regular expression ... *)
+Theorem C16_match_iff_shaped : forall t, (exists tr, match_text t = Some tr) <-> attr_shaped t.
+Proof. exact match_iff_shaped. Qed.
 
 (* ... and the recogniser the oracle uses accepts every text of the form ... *)
 Theorem C16_shaped_complete : forall t, attr_shaped t -> shaped_b t = true.
@@ -79,6 +90,14 @@ Theorem C16_error_iff : forall P json5 is_null lines,
   holder P json5 is_null lines = None <->
   exists raw p j, In raw lines /\ parse_line raw = Some p /\ p_json p = Some j /\ json5 j = None.
 Proof. exact holder_error_iff. Qed.
+
+(* the property as the check evaluates it, on the model: for every block of canonically spelled
+   well-formed annotation lines outside the F7 class and lines that are not of the form, and
+   every JSON5 oracle table, prop_C16 accepts the model's output (malformed JSON5 included:
+   then the holder is an error) *)
+Theorem C16_holds_partial : forall tbl items,
+  Forall (item_canon tbl) items -> prop_C16 items (model_obs tbl (map item_raw items)) = true.
+Proof. exact model_satisfies_prop. Qed.
 
 (* ---- non-vacuity ---- *)
 
@@ -133,7 +152,15 @@ Example C16_oracle_nonvacuous :
   prop_C16 demo_items {| ob_err := true; ob_attrs := []; ob_frees := []; ob_description := [] |} = false.
 Proof. exact demo_oracle. Qed.
 
+Example C16_holds_nonvacuous :
+  Forall (item_canon [(s "{name:""b""}", Some (s "P"))]) demo_canon_items.
+Proof. exact demo_canon. Qed.
+
 Print Assumptions C16_roundtrip_partial.
+Print Assumptions C16_roundtrip_exact.
+Print Assumptions C16_match_iff_shaped.
+Print Assumptions C16_holds_partial.
+Print Assumptions C16_holds_nonvacuous.
 Print Assumptions C16_roundtrip_spellings_partial.
 Print Assumptions C16_roundtrip_refuted.
 Print Assumptions C16_match_sound.
